@@ -217,6 +217,12 @@ func newServerWithInterface(cfg ServerConfig, logger *zap.Logger, iface *net.Int
 		mru = 1492
 	}
 
+	sessions := NewSessionManager()
+	if pool != nil {
+		// sessions removed by the idle sweep give their address back
+		sessions.SetOnExpire(func(sess *Session) { pool.Release(sess.SessionID) })
+	}
+
 	return &Server{
 		iface:          cfg.Interface,
 		serverMAC:      iface.HardwareAddr,
@@ -226,7 +232,7 @@ func newServerWithInterface(cfg ServerConfig, logger *zap.Logger, iface *net.Int
 		sessionTimeout: cfg.SessionTimeout,
 		mru:            mru,
 		logger:         logger,
-		sessions:       NewSessionManager(),
+		sessions:       sessions,
 		serverIP:       serverIP,
 		clientIPPool:   pool,
 		primaryDNS:     net.ParseIP(cfg.PrimaryDNS),
